@@ -80,10 +80,18 @@ ToHostStr(c) == CASE c = "exact" -> "e.x" [] c = "wild" -> "w.y" [] c = "ext" ->
 
 Names == << [raw |-> "svc.example.com", user |-> "", host |-> "svc.example.com", hasat |-> FALSE],
             [raw |-> "sos@emergency.example", user |-> "sos", host |-> "emergency.example", hasat |-> TRUE],
-            [raw |-> "urn:service:sos", user |-> "", host |-> "", hasat |-> FALSE] >>
+            [raw |-> "urn:service:sos", user |-> "", host |-> "", hasat |-> FALSE],
+            \* several names on one host: a later name must not be shadowed by an earlier one of the same host
+            [raw |-> "police@emergency.example", user |-> "police", host |-> "emergency.example", hasat |-> TRUE],
+            [raw |-> "alice@dual.example", user |-> "alice", host |-> "dual.example", hasat |-> TRUE],
+            [raw |-> "dual.example", user |-> "", host |-> "dual.example", hasat |-> FALSE] >>
 Ruri(c, lport) ==
     CASE c = "lit"      -> SipU("alice", "svc.example.com", 0, <<>>)
       [] c = "userhost" -> SipU("sos", "emergency.example", 0, <<>>)
+      [] c = "userhost2" -> SipU("police", "emergency.example", 0, <<>>)  \* the second user@host name of that host
+      [] c = "userhost.miss" -> SipU("fire", "emergency.example", 0, <<>>) \* a user no name of that host lists
+      [] c = "hostafter" -> SipU("bob", "dual.example", 0, <<>>)          \* matched by the bare host name that FOLLOWS a user@host name of the host
+      [] c = "userhost.first" -> SipU("alice", "dual.example", 0, <<>>)
       [] c = "regex"    -> SipU("x911", "any.example", 0, <<>>)        \* matches a name only when used as a regular expression
       [] c = "urn"      -> AbsU("urn", "service:sos")
       [] c = "tel"      -> AbsU("tel", "+15551234")
